@@ -1,7 +1,7 @@
 (* Property C08 — locked LP can only return to its owner, only after unlocking, and in full.
    Statements only; proofs in Proofs/FarmProofs.v, Proofs/FarmChainProofs.v, Proofs/PmProofs.v, Proofs/AuthProofs.v. *)
 From MD.Model Require Import Base Ownable Epoch PoolMath Types PoolManager FarmManager Chain.
-From MD.Proofs Require Import ChainProofs PmProofs AuthProofs WeightProofs FarmProofs FarmChainProofs.
+From MD.Proofs Require Import ChainProofs PmProofs AuthProofs WeightProofs FarmProofs FarmChainProofs BankProofs TxBalances.
 
 (* who may do what with a position *)
 Theorem C08_position_roles : forall w sender funds m s' msgs,
@@ -131,6 +131,18 @@ Proof. exact run_pos_fresh. Qed.
 Example C08_genesis_fresh : forall c, pos_fresh (empty_fm c).
 Proof. intros c. split; [cbn; lia | intros k Hk; reflexivity]. Qed.
 
+(* THE WHOLE TRANSACTION, every bank balance: a regular withdrawal moves exactly the recorded LP amount from the farm
+   manager to the owner (= the sender) and changes no other balance *)
+Theorem C08_withdrawal_transaction_moves_exactly_these_balances : forall w sender funds id em w',
+  em <> Some true ->
+  run_tx w sender FM (WFm (FmPosWithdraw id em)) funds = Ok w' ->
+  exists p, sfind pos_id id (fm_positions (w_fm w)) = Some p /\ pos_recv p = sender /\ funds = [] /\
+    forall a d,
+      bal (w_bank w') a d = bal (w_bank w) a d
+        - ind (String.eqb a FM) (ind (String.eqb (denom_of (pos_lp p)) d) (amount_of (pos_lp p)))
+        + ind (String.eqb a sender) (ind (String.eqb (denom_of (pos_lp p)) d) (amount_of (pos_lp p))).
+Proof. exact position_withdraw_tx_balances. Qed.
+
 Print Assumptions C08_position_roles.
 Print Assumptions C08_pool_manager_locks_only_for_depositor.
 Print Assumptions C08_withdraw_iff.
@@ -142,3 +154,4 @@ Print Assumptions C08_expand_effect.
 Print Assumptions C08_others_cannot_touch_a_position.
 Print Assumptions C08_generated_identifiers_never_collide.
 Print Assumptions C08_genesis_fresh.
+Print Assumptions C08_withdrawal_transaction_moves_exactly_these_balances.
